@@ -417,6 +417,9 @@ func runISOProperty(t *testing.T, prop string) {
 	isoFamilyCases(r.Thorough(), structural, do)
 	if r.Shard == 0 {
 		anchorISOReader(r)
+		if !structural {
+			anchorGeneratedImages(r, base)
+		}
 	}
 }
 
